@@ -96,12 +96,19 @@ func execHard(f []string) string {
 		keep := h
 		a := blockchain.HashToBig(&h)
 		s := a.Text(16)
-		a.Lsh(a, 3) // results are values: the next call must not see this
-		b := blockchain.HashToBig(&h)
+		other := h
+		other[0] ^= 0xff
+		other[31] ^= 0x01
+		b := blockchain.HashToBig(&other)
+		b.Lsh(b, 3)
+		if a.Text(16) != s { // the first result must survive later calls
+			return "aliased"
+		}
+		a.Lsh(a, 3) // and the next call must not see this
 		if h != keep {
 			return "input-mutated"
 		}
-		if b.Text(16) != s {
+		if blockchain.HashToBig(&h).Text(16) != s {
 			return "aliased"
 		}
 		return s
@@ -181,6 +188,14 @@ func execHard(f []string) string {
 		}
 		c := blockchain.VerifNewC09Chain(&chaincfg.Params{TargetTimespan: time.Second, TargetTimePerBlock: time.Second,
 			RetargetAdjustmentFactor: 1}, make([]int64, len(bits)), bits)
+		// every ancestor's cumulative work is re-observed after its descendants were built
+		acc := new(big.Int)
+		for i, ws := range c.WorkSums() {
+			acc.Add(acc, blockchain.CalcWork(bits[i]))
+			if ws.Cmp(acc) != 0 {
+				return fmt.Sprintf("ancestor-sum-changed@%d", i)
+			}
+		}
 		return c.WorkSum().Text(16)
 	case "easiest":
 		p := parseParams(f[2:11])
